@@ -68,9 +68,19 @@ type BigParams struct {
 	K int
 }
 
+// BatchParams describes the cosmos batch-fault experiment.
+type BatchParams struct {
+	Seed    uint64
+	Blocks  int
+	Seqs    int
+	Actions int
+	// FailAt: the FailAt-th transactional batch addressed to the plan's partition is refused (1-based).
+	FailAt int
+}
+
 // AtomCase is a C14 case.
 type AtomCase struct {
-	// Mode: "poison", "dup", "interleave", "kill".
+	// Mode: "poison", "dup", "interleave", "kill", "batch" (the last only when the cosmos fault hook is compiled in).
 	Mode string
 	Arm  string
 	Seed uint64
@@ -85,6 +95,8 @@ type AtomCase struct {
 	Steps []Step           `json:",omitempty"`
 	// kill
 	Big *BigParams `json:",omitempty"`
+	// batch
+	Batch *BatchParams `json:",omitempty"`
 }
 
 var poisonKindNames = map[int]string{
@@ -106,6 +118,8 @@ func genAtomCase(t *rapid.T) AtomCase {
 			mode = "poison"
 		case u < 76*killOneIn:
 			mode = "dup"
+		case u >= 96*killOneIn && batchFaultAvailable:
+			mode = "batch"
 		default:
 			mode = "interleave"
 		}
@@ -164,6 +178,15 @@ func genAtomCase(t *rapid.T) AtomCase {
 				state[i] = 1
 				c.Steps = append(c.Steps, Step{Kind: "create", Plan: i})
 			}
+		}
+	case "batch":
+		c.Arm = store.ArmCosmosFake
+		c.Batch = &BatchParams{
+			Seed:    rapid.Uint64().Draw(t, "batchseed"),
+			Blocks:  rapid.IntRange(1, 3).Draw(t, "batchblocks"),
+			Seqs:    rapid.IntRange(3, 8).Draw(t, "batchseqs"),
+			Actions: rapid.IntRange(6, 14).Draw(t, "batchactions"),
+			FailAt:  rapid.IntRange(1, 5).Draw(t, "failat"),
 		}
 	case "kill":
 		c.Arm = store.ArmSqliteFile
@@ -805,6 +828,8 @@ func checkAtomCase(c AtomCase) (res vprop.Result) {
 		r.interleave(c)
 	case "kill":
 		r.kill(c)
+	case "batch":
+		r.batch(c)
 	default:
 		r.skip("malformed_case")
 	}
